@@ -4,7 +4,7 @@ sys.path.insert(0, "/verif")
 
 CHECKS = {
  "C01": ("translation_validation", "symbolic execution (symx+z3) of interpreter vs generated module on a generated grammar family (all inputs up to a length bound) and on the bundled grammars with symbolic windows",
-         "Family F1 = expression kinds (108) x nesting contexts (25) x trivia configurations (14), plus the nested stack family: quick decides a pairwise covering (~7 800 grammars), thorough the full product (~35 000; the trivia-free part one character deeper) plus 400 seeded compositions. For every start rule, every input of length <= 4 (quick) / 4-5 (thorough) over the whole Unicode code space and listed start positions: Parser.parse and exec(Parser.generate()).parse return the same tree or the same furthest-failure position, with and without the optimizer; generate() is deterministic and its output compiles. Also the repository's 15 grammars on its own test inputs with 1-2 symbolic characters replaced / inserted. Bounded, not a proof: longer inputs and grammars outside the family are outside the claim.", "6 C01"),
+         "Family F1 = expression kinds (114) x nesting contexts (25) x trivia configurations (16), plus the nested stack family: quick decides a pairwise covering (~8 100 grammars), thorough the full product (~42 000; the trivia-free part one character deeper) plus 400 seeded compositions. For every start rule, every input of length <= 4 (quick) / 4-5 (thorough) over the whole Unicode code space and listed start positions: Parser.parse and exec(Parser.generate()).parse return the same tree or the same furthest-failure position, with and without the optimizer; generate() is deterministic and its output compiles. Also the repository's 15 grammars on its own test inputs with 1-2 symbolic characters replaced / inserted. Bounded, not a proof: longer inputs and grammars outside the family are outside the claim.", "6 C01"),
  "C02": ("translation_validation", "symbolic execution (symx+z3): optimizer=None vs default pipeline, each single pass, pass permutations / repetitions / seeded sequences; interpreter and generated",
          "Same family, bundled grammars and bounds as C01; the unoptimized parser is compared per joint path with the default pipeline, each exported pass alone, the reversed pipeline, the pipeline twice and other orders (thorough: seeded sequences of length 2-6), interpreted and generated. The regex model exposes OptimizedChoice's alternation order, flags and case folding to the solver (case-insensitive literals on every code point).", "6 C02"),
  "C03": ("model_checking", "bounded symbolic execution of all four modes against an independent reference PEG semantics (refpeg)",
@@ -18,7 +18,7 @@ CHECKS = {
  "C07": ("model_checking", "symbolic execution of every start rule in four modes; any exception other than PestParsingError or a differing second call is a violation",
          "All of F1 + stack family + bundled grammars, every start rule, all inputs up to the bound: each path ends in Pairs or PestParsingError and a repeated call gives an equal result. Termination is bounded by a per-unit budget and a watchdog (an exhausted budget is reported inconclusive, never success).", "6 C07"),
  "C13": ("model_checking", "symbolic execution: failure position/name validity per rejecting path; error_context() and join_with_limit() decided for all arguments up to a bound; rendering on every path's witness; CrossHair as second engine (thorough)",
-         "All of F1 + bundled grammars x four modes: furthest_pos in range or -1, listed names are rules/built-ins (per rejecting path, symbolic input). error_context(text,p) equals the line/column reference for every text of length <= 4/6 and every offset (symbolic text; '\\n' breaks, and all str.splitlines boundaries against a splitlines reference); join_with_limit with a symbolic limit. str(error) is evaluated on each path's concrete witness.", "6 C13"),
+         "All of F1 + bundled grammars x four modes: furthest_pos in range or -1, listed names are rules/built-ins (per rejecting path, symbolic input). error_context(text,p) equals the line/column reference for every text of length <= 4/6 and every offset (symbolic text; '\\n' breaks, and all str.splitlines boundaries against a splitlines reference); join_with_limit with a symbolic limit never raises and returns a str. str(error) is evaluated on each path's concrete witness.", "6 C13"),
  "C16": ("model_checking", "symbolic execution: parse(text, start_pos=k) vs parse(text[k:]) shifted, same symbolic characters, all k",
          "SOI-free part of F1 and of the bundled grammars x four modes x all 1 <= k <= n: because the prefix characters are symbolic and unconstrained, equality on all paths is exactly 'characters before start_pos are never consulted'.", "6 C16"),
 }
